@@ -171,7 +171,9 @@ theorem appendBatch_C15b (fsHas : Nat → Bool) (es : List (LogId × Bytes)) (s 
   | nil => exact Or.inl rfl
   | cons e rest ih =>
     obtain ⟨id, p⟩ := e
-    unfold Store.appendBatch
+    by_cases hidx : id.index + 1 = U64
+    · rw [appendBatch_cons_refused_D12 _ _ _ _ _ _ _ hidx]; exact Or.inl rfl
+    rw [appendBatch_cons_small_D12 _ _ _ _ _ _ _ hidx]
     have h1 := appendAndApply_append_C15b fsHas id p hinv
     have hi1 := appendAndApply_cacheInv fsHas (.append id p) hinv (by intro x hx; cases hx)
     split
@@ -187,13 +189,15 @@ theorem appendBatch_C15b (fsHas : Nat → Bool) (es : List (LogId × Bytes)) (s 
     · rename_i k s' e' heq; rw [heq] at h1; exact h1
     · rename_i m s' e' heq; rw [heq] at h1; exact h1
 
-/-- If the FIRST entry of the batch is accepted by the state, the batch
-inserted (whatever happens to the later entries). -/
+/-- If the FIRST entry of the batch is accepted by the state (and its index is
+not u64::MAX, which `append` refuses up front), the batch inserted (whatever
+happens to the later entries). -/
 theorem appendBatch_first_acc_C15b (fsHas : Nat → Bool) (id : LogId) (p : Bytes)
     (rest : List (LogId × Bytes)) (s : Store) (seg : Seg) (effs : List Eff) (st' : RState)
-    (hinv : CacheInv s) (hst : s.st.apply (.append id p) = .ok st') :
+    (hinv : CacheInv s) (hst : s.st.apply (.append id p) = .ok st')
+    (hidx : id.index + 1 ≠ U64) :
     InsertedC15b s (Store.appendBatch fsHas ((id, p) :: rest) s seg effs).2.1 := by
-  unfold Store.appendBatch
+  rw [appendBatch_cons_small_D12 _ _ _ _ _ _ _ hidx]
   have h1 := appendAndApply_append_acc_C15b fsHas id p st' hinv hst
   have hi1 := appendAndApply_cacheInv fsHas (.append id p) hinv (by intro x hx; cases hx)
   split
@@ -212,7 +216,9 @@ theorem appendBatch_first_rej_C15b (fsHas : Nat → Bool) (id : LogId) (p : Byte
     (rest : List (LogId × Bytes)) (s : Store) (seg : Seg) (effs : List Eff)
     (hrej : ∀ st', s.st.apply (.append id p) ≠ .ok st') :
     (Store.appendBatch fsHas ((id, p) :: rest) s seg effs).2.1 = s := by
-  unfold Store.appendBatch
+  by_cases hidx : id.index + 1 = U64
+  · rw [appendBatch_cons_refused_D12 _ _ _ _ _ _ _ hidx]
+  rw [appendBatch_cons_small_D12 _ _ _ _ _ _ _ hidx]
   have h1 := appendAndApply_append_rej_C15b s fsHas id p hrej
   split
   · rename_i seg' s' e' heq
@@ -322,6 +328,8 @@ theorem call_nonappend_C15b {s : Store} (fsHas : Nat → Bool) (op : Op) (hok : 
           · exact appendAndApply_nonappend_C15b fsHas _ hok (by intro id p h; cases h)
   | purge upto =>
     simp only [Store.call]
+    split
+    · exact CacheShrinkC15b.refl _
     split
     · exact CacheShrinkC15b.refl _
     · split
